@@ -36,10 +36,10 @@ func TestVfLoop(t *testing.T) {
 	defer tr.Close()
 	g := &vfGamma{base: vfIPBase(), rnd: vfRand(22), decor: 1}
 	uaIP := map[string]string{"ua1": g.ip("10.0.5.5"), "ua2": g.ip("10.0.5.6")}
-	uaPort := map[string]int{"ua1": 40001, "ua2": 40002}
+	uaPort := map[string]int{"ua1": 24001, "ua2": 24002}
 	// the announced sent-by: the model's "ua1" is an address other than any true source; "name.example" a host-table name
 	sentHost := map[string]string{"ua1": g.ip("10.0.2.1"), "name.example": "client.example.com"}
-	for _, sp := range [][2]interface{}{{"10.0.5.5", 40001}, {"10.0.5.6", 40002}, {"10.0.5.5", 5062}, {"10.0.5.6", 5062}, {"10.0.5.5", 5060}, {"10.0.5.6", 5060},
+	for _, sp := range [][2]interface{}{{"10.0.5.5", 24001}, {"10.0.5.6", 24002}, {"10.0.5.5", 5062}, {"10.0.5.6", 5062}, {"10.0.5.5", 5060}, {"10.0.5.6", 5060},
 		{"10.0.2.1", 5062}, {"10.0.2.1", 5060}, {"10.0.2.9", 5060}, {"10.0.2.9", 5062}, {"10.0.2.2", 5064},
 		{"10.0.2.3", 5060}, {"10.0.2.3", 5062}, {"10.0.2.3", 7777}, {"10.0.5.5", 7777}, {"10.0.5.6", 7777}} {
 		vfAllSinks.get(t, g.ip(sp[0].(string)), sp[1].(int))
